@@ -782,6 +782,14 @@ def layer_b_units(quick: bool) -> List[Tuple[str, List[Dict[str, Any]]]]:
         for pt in ("A_FLOAT64", "A_FLOAT32"):
             methods.append(("u8", pt, {"cat": "SCALE-LINEAR", "i2p": [{"lo": cl(0), "hi": cl(x0), "num": [0, a], "den": [1]},
                                                                      {"lo": cl(x0), "hi": cl(x1), "num": [c, b], "den": [1]}]}))
+    # a linear function whose coefficients are tiny but exact (2^-40 over 2^-40 is the identity; -3*2^-40 over 2^-41 is -6x):
+    # the magnitude of the factor alone says nothing about the function
+    t40, t41 = 2.0 ** -40, 2.0 ** -41
+    methods.append(("u8", "A_FLOAT64", {"cat": "LINEAR", "i2p": [{"num": [0, t40], "den": [t40]}]}))
+    methods.append(("i8", "A_FLOAT32", {"cat": "LINEAR", "i2p": [{"num": [0, t40], "den": [t40]}]}))
+    methods.append(("u8", "A_FLOAT64", {"cat": "LINEAR", "i2p": [{"num": [t40, -3 * t40], "den": [t41]}]}))
+    methods.append(("u8", "A_FLOAT64", {"cat": "SCALE-LINEAR", "i2p": [{"lo": cl(0), "hi": cl(100), "num": [0, t40], "den": [t40]},
+                                                                   {"lo": cl(100), "hi": cl(255), "num": [-100 * t40, 2 * t40], "den": [t40]}]}))
     progs = []
     for idx, (it, pt, cm) in enumerate(methods):
         dct = INTERNAL_TYPES[it]
